@@ -570,6 +570,18 @@ func (s *Sched) ctlIndex(c *ctl) int {
 	return 99
 }
 
+// Unpark makes every parked item (one whose retries the harness had stopped because nothing changed between
+// them) eligible again: the real work queue retries a failing reconcile for ever, with back-off.
+func (s *Sched) Unpark() {
+	for _, c := range s.ctls {
+		for _, sl := range c.slots {
+			for _, it := range sl.pending {
+				it.errs = 0
+			}
+		}
+	}
+}
+
 // Pending returns the number of pending (eligible or parked) items and in-flight tasks.
 func (s *Sched) Pending() (eligible, parked, inflight int) {
 	for _, c := range s.ctls {
